@@ -134,6 +134,37 @@ class Circuit:
     def num_measurements(self):
         return sum(len(i.targets_copy()) for i in self.flattened() if i.name in ('M', 'MX', 'MY', 'MR'))
 
+    # like stim: counts over the expanded circuit; num_qubits = 1 + largest qubit target (record targets are not qubits)
+    @property
+    def num_qubits(self):
+        top = -1
+        for i in _expand(self):
+            if i.name in ('DETECTOR', 'OBSERVABLE_INCLUDE', 'TICK', 'SHIFT_COORDS'):
+                continue
+            for t in i.targets_copy():
+                if isinstance(t, GateTarget):
+                    if t.is_measurement_record_target:
+                        continue
+                    t = t.value
+                top = max(top, int(t))
+        return top + 1
+
+    def _count(self, name):
+        return sum(1 for i in _expand(self) if i.name == name)
+
+    @property
+    def num_detectors(self):
+        return self._count('DETECTOR')
+
+    @property
+    def num_ticks(self):
+        return self._count('TICK')
+
+    @property
+    def num_observables(self):
+        idx = [int(a) for i in _expand(self) if i.name == 'OBSERVABLE_INCLUDE' for a in i.gate_args_copy()[:1]]
+        return max(idx) + 1 if idx else 0
+
 
 _MODULES = ['qce_circuit.addon_stim.intrf_stim_factory', 'qce_circuit.addon_stim.circuit_operations', 'qce_circuit.addon_stim.factory_manager',
             'qce_circuit.addon_stim.operation_factories.factory_basic_operations', 'qce_circuit.addon_stim.operation_factories.factory_barrier_operations',
